@@ -408,7 +408,7 @@ Proof. vm_compute. split; reflexivity. Qed.
    kind 2 (Log): the domain is one NewLog returns, and log_case_ok / log_case_borderline.
    The predicates of kinds 1 and 2 are unfolded in C17_check_meaning_scales. *)
 From Coq Require Import Qround.
-From MM Require Import Proofs.CheckBase Proofs.CheckC17Base Proofs.CheckC17Parse Proofs.CheckC17Lin Proofs.CheckC17Log Proofs.CheckC17Win Proofs.CheckC17WinLog Proofs.CheckC17.
+From MM Require Import Proofs.CheckBase Proofs.CheckC17Base Proofs.CheckC17Parse Proofs.CheckC17Lin Proofs.CheckC17Log Proofs.CheckC17Win Proofs.CheckC17WinLog Proofs.CheckC17WinCase Proofs.CheckC17.
 Section CheckSound.
 Local Open Scope Z_scope.
 Local Open Scope Q_scope.
@@ -709,7 +709,9 @@ Print Assumptions C17_check_meaning_scales.
    singleton exact outcome: a per-level observation, Ticks(o) with its minor ticks, and Nice(o) that pass
    the admissible comparison pass the exact one when no decision is inside the window - so a borderline
    verdict of these groups never arises there, and a borderline per-level group names a level with a
-   decision inside the window.  Log: the admissible set takes each undecided (N_border) slack decision of
+   decision inside the window.  For a whole Linear case: judge_linear returns code 1 ONLY IF a decision -
+   of Ticks on the ordered domain, of a per-level observation, of Nice on the start domain, of Ticks or
+   Nice on the observed new domain - is inside the window.  Log: the admissible set takes each undecided (N_border) slack decision of
    log_exps either way and treats candidate minor ticks within 1e-12 of a domain end as optional; when no
    slack decision is undecided (le_amb = false) Nice, TicksAtLevel/CountTicks at levels >= 0 and Ticks
    whose levels are >= 0 (no minor ticks involved) that pass the admissible comparison pass the exact one. *)
@@ -743,7 +745,21 @@ Theorem C17_check_borderline_window :
      log_level_exact base (log_e base mn mx) (lf_neg mn mx) (lf_emin mn mx) (lf_emax mn mx) tolv lv = true) /\
   (forall tolv o base mn mx st major minor l, le_amb (log_e base mn mx) = false ->
      log_search o (log_e base mn mx) false = FL_ok l -> (match minor with Some _ => 1 | None => 0 end <= l)%Z ->
-     log_ticks_A tolv o base mn mx st major minor = true -> log_ticks_E tolv o base mn mx st major minor = true).
+     log_ticks_A tolv o base mn mx st major minor = true -> log_ticks_E tolv o base mn mx st major minor = true) /\
+  (* a whole Linear case: no borderline verdict without a decision inside the window *)
+  (forall c t p d eb, judge_linear c = verdict 1 t p d -> lin_ebase (sc_base c) = Some eb ->
+     exists ao bo, so_nmin (sc_ob c) = XFin ao /\ so_nmax (sc_ob c) = XFin bo /\
+     let base := sc_base c in let mn := sc_mn c in let mx := sc_mx c in
+     ~ ((forall l, lin_amb_level base eb (fst (lin_order mn mx)) (snd (lin_order mn mx)) false l = false) /\
+        (forall l, lin_amb_level base eb mn mx false l = false) /\
+        (forall l, lin_amb_level base eb (fst (lin_start mn mx)) (snd (lin_start mn mx)) true l = false) /\
+        (forall l, lin_amb_level base eb (fst (lin_order ao bo)) (snd (lin_order ao bo)) false l = false) /\
+        (forall l, lin_amb_level base eb (fst (lin_start ao bo)) (snd (lin_start ao bo)) true l = false))) /\
+  (forall base eb o tolv, lin_ebase base = Some eb -> forall a b major, a < b ->
+     (forall l, lin_amb_level base eb a b false l = false) ->
+     lin_ticks_adm o base eb a b tolv (lin_search o base eb a b false) major None = true ->
+     exists l, lin_search o base eb a b false = FL_ok l /\ (1 <= o_max o)%Z /\
+       close_list tolv (lin_ticks_at base eb a b false l) major = true).
 Proof. exact borderline_window. Qed.
 Print Assumptions C17_check_borderline_window.
 
